@@ -147,13 +147,20 @@ func validSweep(c *explore.Ctx) {
 	}
 }
 
+var foldBases = []byte{'a', 'Q', '5', 0x00, 0x7f, '@', '[', '`', '{', ' '}
+
 func foldSweep(c *explore.Ctx) {
 	n := 1 + c.Choose(maxLen(c, 72, 136))
+	// the bytes around the varied pair: word-at-a-time folding lets a neighbour's borrow or carry leak into a lane,
+	// so short inputs (where such paths live) are swept with every class of neighbour
 	nb := 3
 	if !c.Thorough() {
 		nb = 1
 	}
-	base := []byte{'a', 'Q', '5'}[c.Choose(nb)]
+	if n <= 12 || (c.Thorough() && n <= 24) {
+		nb = len(foldBases)
+	}
+	base := foldBases[c.Choose(nb)]
 	ar1, ar2 := arena(512), arena(512)
 	off := (n * 7) & 31
 	a := ar1[off : off+n : off+n]
@@ -410,7 +417,7 @@ func Spec() *explore.Spec {
 		ID: "C20",
 		Families: []*explore.Family{
 			{Name: "valid-sweep", Variants: both, ShardDepth: 2, Body: validSweep, Doc: "every (length, alignment 0..31, position, byte value 0..255) single deviation from an all-valid string, 4 fillers"},
-			{Name: "fold-pairs", Variants: both, ShardDepth: 2, Body: foldSweep, Doc: "every ordered pair of ASCII bytes at every position of equal-length operands"},
+			{Name: "fold-pairs", Variants: both, ShardDepth: 2, Body: foldSweep, Doc: "every ordered pair of ASCII bytes at every position of equal-length operands, the other positions filled with each of 10 neighbour classes (letters of both cases, digit, NUL, DEL, space, and the bytes next to the letter ranges) for lengths <= 12 (thorough 24), one (thorough three) above"},
 			{Name: "affix-lengths", Variants: both, ShardDepth: 2, Body: affixSweep, Doc: "every (len s, len affix) combination with single deviations"},
 			{Name: "aliased-operands", Variants: both, ShardDepth: 2, Body: aliasSweep, Doc: "both operands are views of one buffer: 5 x 5 start offsets x every pair of lengths x 3 contents"},
 			{Name: "singles", Variants: both, Body: singles, Doc: "byte and rune predicates"},
